@@ -152,6 +152,20 @@ for _m in ("copy", "lzma", "lzma2"):
         LAYOUTS.append((f"7z-{_m}-{'solid' if _solid else 'folder-per-file'}", "a.7z",
                         (lambda e, m=_m, s=_solid: write7z(e, m, s))))
 
+def write_tar_multistream(entries, kind):
+    """a compressed TAR whose compressed file is a concatenation of two streams (pbzip2 / pixz / appended gzip members),
+    cut at a 512-byte block boundary in the middle of the archive"""
+    import bz2
+    import gzip
+    raw = write_tar(entries, "w")
+    cut = max(512, (len(raw) // 1024) * 512)
+    comp = {"gz": gzip.compress, "bz2": bz2.compress, "xz": lzma.compress}[kind]
+    return comp(raw[:cut]) + comp(raw[cut:])
+
+
+LAYOUTS += [("tar.gz-two-streams", "a.tar.gz", lambda e: write_tar_multistream(e, "gz")),
+            ("tar.bz2-two-streams", "a.tar.bz2", lambda e: write_tar_multistream(e, "bz2")),
+            ("tar.xz-two-streams", "a.tar.xz", lambda e: write_tar_multistream(e, "xz"))]
 LAYOUTS += [("tar-gnu", "a.tar", lambda e: write_tar(e, "w", tarfile.GNU_FORMAT)), ("tar-ustar", "a.tar", lambda e: write_tar(e, "w", tarfile.USTAR_FORMAT)),
             ("tar.gz-gnu", "a.tar.gz", lambda e: write_tar(e, "w:gz", tarfile.GNU_FORMAT)),
             ("7z-copy-blocks-of-2", "a.7z", lambda e: write7z(e, "copy", group=2)), ("7z-lzma2-blocks-of-2", "a.7z", lambda e: write7z(e, "lzma2", group=2)),
@@ -205,11 +219,30 @@ def member_sets():
     yield many
     yield [("deep/" * 12 + "n" * 90 + ".txt", b"long name"), DOCS[0]]                      # a name longer than 127 UTF-16 units
     yield [(f"f{i:03d}.txt", f"{i}".encode()) for i in range(130)]                          # >= 128 entries: two-byte NUMBERs for counts
+    # the same member name listed more than once (append-mode updates): every listed entry keeps its own bytes
+    yield [("notes.txt", b"first version"), DOCS[0], ("notes.txt", b"second version, longer"), ("sub/b.md", b"# other bravo"), DOCS[1]]
+    # absolute member names (tar -P, writestr with a full path): still labelled archive!/member
+    yield [("/srv/share/report.txt", b"absolute"), DOCS[0], ("/abs.md", b"# abs")]
 
 
 def observe(r):
     m = r.get_metadata()
     return [m.filename, m.file_path, json.loads(json.dumps(r.to_json(), default=repr, sort_keys=True))]
+
+
+def member_limit():
+    from sharepoint2text.parsing.extractors import archive_extractor as ae
+    return ae._config.max_memory_size
+
+
+def only_layouts(entries):
+    """layout filter of the special member sets (None = every layout)"""
+    names = [n for n, _d in entries]
+    if len(names) != len(set(names)) or any(n.startswith("/") for n in names):
+        # duplicate member names / absolute member names: ZIP and TAR keep them as they are; a 7z extraction to disk cannot
+        # (ambiguous or unsafe paths are rejected by the reader by design)
+        return lambda l: not l.startswith("7z")
+    return None
 
 
 def expected(entries, archive_name, with_origin=False):
@@ -223,6 +256,8 @@ def expected(entries, archive_name, with_origin=False):
         if base.startswith(".") or name.startswith("__MACOSX/") or not is_supported_file(base):
             continue
         if base.lower().endswith((".zip", ".tar", ".tar.gz", ".tgz", ".tar.bz2", ".tbz2", ".tar.xz", ".txz", ".7z")):
+            continue
+        if len(data) > member_limit():              # members above the configured per-member limit are skipped (C12)
             continue
         try:
             res = list(get_extractor(base)(io.BytesIO(data), path=f"{archive_name}!/{name}"))
@@ -263,15 +298,25 @@ def first_diff(got, want, optional=()):
 
 def recorded(label, entries):
     """input classes of the recorded known findings (known_findings.json); each has its own witness replay"""
-    if label in ("tar", "tar-gnu", "tar-ustar") and not entries:
+    if label in ("tar", "tar-gnu", "tar-ustar") and not entries and still_open("F27"):
         return "F27"
     return None
+
+
+def still_open(prefix):
+    """an exemption for the input class of a recorded finding holds only while the finding is listed as open in
+    known_findings.json (`findings`); once it is fixed in the library the class is checked like every other input"""
+    try:
+        k = json.load(open(os.path.join(os.path.dirname(os.path.dirname(os.path.abspath(__file__))), "known_findings.json")))
+        return any(f.get("property") == "C10" and str(f.get("id", "")).startswith(prefix) for f in k.get("findings", []))
+    except (OSError, ValueError, AttributeError):
+        return False
 
 
 def optional_results(label, entries, aname):
     """F25 (recorded): in a 7z archive the result of a ZERO-LENGTH member itself may be missing; every other member's
     result, the order, and the absence of errors are still required"""
-    if not label.startswith("7z"):
+    if not label.startswith("7z") or not still_open("F25"):
         return ()
     return {k for k, (_r, n) in enumerate(expected(entries, aname, with_origin=True)) if n == 0}
 
@@ -285,6 +330,9 @@ def matrix(layout_filter=None, sets=None, skip_recorded=True):
             if skip_recorded and recorded(label, entries):
                 continue
             if len(entries) > 50 and label not in BIG_SET_LAYOUTS:        # the 130-entry set: one layout per container / coder family
+                continue
+            lf = only_layouts(entries)
+            if lf is not None and not lf(label):
                 continue
             data = build(entries)
             got, err = run_archive(data, aname)
@@ -301,8 +349,21 @@ def matrix(layout_filter=None, sets=None, skip_recorded=True):
 # ----------------------------------------------------- function-level checks --
 def reader_on(data):
     from sharepoint2text.parsing.extractors.util.sevenzip import SevenZipReader
-    r = SevenZipReader.__new__(SevenZipReader)
-    r._stream = io.BytesIO(data)
+    new = io.BytesIO(data)
+    src = io.BytesIO(write7z([]))
+    try:
+        # a reader built by its own constructor (over an empty archive) and then pointed at the bytes under test: whichever
+        # attributes the constructor sets exist, and the stream is found by identity, not by the name of a private attribute
+        r = SevenZipReader(src)
+        slots = [k for k, v in vars(r).items() if v is src or isinstance(v, io.BytesIO)]       # the archive and the (header) stream being parsed
+        for k in slots:
+            setattr(r, k, new)
+        if not slots:
+            raise AttributeError("stream attribute not found")
+    except Exception:  # noqa  constructor not usable this way: the bare object with the stream under its customary name
+        r = SevenZipReader.__new__(SevenZipReader)
+        r._stream = new
+    r._replay_io = new
     return r
 
 
@@ -313,7 +374,7 @@ def check_read_number():
     cases += [number(v) + b"\xaa" for v in (0, 1, 127, 128, 0x3FFF, 0x4000, 2 ** 32, 2 ** 56 - 1, 2 ** 56, 2 ** 64 - 1)]
     for data in cases:
         r = reader_on(data)
-        got = (r._read_number(), r._stream.tell())
+        got = (r._read_number(), r._replay_io.tell())
         if got != number_spec(data):
             return {"target": "sevenzip.py::SevenZipReader._read_number", "inputs": {"stream_hex": data.hex()},
                     "expected": f"(value, bytes consumed) = {number_spec(data)}", "observed": str(got)}
@@ -326,9 +387,9 @@ def check_bool_vector():
             r = reader_on(data)
             got = r._read_boolean_vector(count)
             want = [bool(data[i // 8] & (0x80 >> (i % 8))) for i in range(count)]
-            if got != want or r._stream.tell() != (count + 7) // 8:
+            if got != want or r._replay_io.tell() != (count + 7) // 8:
                 return {"target": "sevenzip.py::SevenZipReader._read_boolean_vector", "inputs": {"count": count, "stream_hex": data.hex()},
-                        "expected": str(want), "observed": f"{got} pos={r._stream.tell()}"}
+                        "expected": str(want), "observed": f"{got} pos={r._replay_io.tell()}"}
     return None
 
 
@@ -344,9 +405,9 @@ def check_bool_vector_defined():
                     want, end = [True] * count, 1
                 else:
                     want, end = [bool(data[1 + i // 8] & (0x80 >> (i % 8))) for i in range(count)], 1 + (count + 7) // 8
-                if list(got) != want or r._stream.tell() != end:
+                if list(got) != want or r._replay_io.tell() != end:
                     return {"target": "sevenzip.py::SevenZipReader._read_boolean_vector", "inputs": {"count": count, "check_defined": True, "stream_hex": data.hex()},
-                            "expected": f"{want} pos={end}", "observed": f"{list(got)} pos={r._stream.tell()}"}
+                            "expected": f"{want} pos={end}", "observed": f"{list(got)} pos={r._replay_io.tell()}"}
     return None
 
 
@@ -402,7 +463,7 @@ def check_pack_info():
                         r._header_offset, r._pack_positions, r._pack_sizes = 32, [], []
                         try:
                             res = r._parse_pack_info()
-                            got = (res[0], list(res[1]), r._stream.tell()) if res is not None else None
+                            got = (res[0], list(res[1]), r._replay_io.tell()) if res is not None else None
                             if got is not None and (list(r._pack_sizes) != got[1] or list(r._pack_positions)[:1] != [got[0]]):
                                 got = ("fields differ", list(r._pack_positions), list(r._pack_sizes))
                         except Bad7zFile:
@@ -415,40 +476,28 @@ def check_pack_info():
     return None
 
 
-class _FailingMember:
-    """a real TarFile whose extractfile() fails for ONE member (a member whose data cannot be read)"""
-
-    def __init__(self, tf, bad):
-        self._tf, self._bad = tf, bad
-
-    def __getattr__(self, name):
-        return getattr(self._tf, name)
-
-    def __enter__(self):
-        self._tf.__enter__()
-        return self
-
-    def __exit__(self, *a):
-        return self._tf.__exit__(*a)
-
-    def extractfile(self, member):
-        if member.name == self._bad:
-            raise OSError("unreadable member (injected)")
-        return self._tf.extractfile(member)
-
-
 def check_tar_member_read_failure():
-    """a TAR member whose bytes cannot be read affects only itself: the other members still come out, in order"""
-    from sharepoint2text.parsing.extractors import archive_extractor as ae
+    """a TAR member whose bytes cannot be read affects only itself: the other members still come out, in order.
+    The failure is injected into tarfile.TarFile.extractfile itself (the real class: every way of opening and walking the
+    archive keeps working); if the code under test never reads the member through it, nothing was injected: no verdict."""
     entries = list(DOCS[:4])
     data = write_tar(entries, "w")
-    real_open = ae.tarfile.open
+    real = tarfile.TarFile.extractfile
     for bad in (entries[0][0], entries[1][0], entries[3][0]):
-        ae.tarfile.open = lambda *a, **k: _FailingMember(real_open(*a, **k), bad)
+        hit = []
+
+        def failing(self, member, bad=bad, hit=hit):
+            if getattr(member, "name", member) == bad:
+                hit.append(1)
+                raise OSError("unreadable member (injected)")
+            return real(self, member)
+        tarfile.TarFile.extractfile = failing
         try:
             got, err = run_archive(data, "a.tar")
         finally:
-            ae.tarfile.open = real_open
+            tarfile.TarFile.extractfile = real
+        if not hit:
+            return None
         want = expected([e for e in entries if e[0] != bad], "a.tar")
         d = first_diff(got, want)
         if err is not None or d is not None:
@@ -475,7 +524,9 @@ def check_7z_bytes():
     from sharepoint2text.parsing.extractors.util.sevenzip import SevenZipReader
     for entries in member_sets():
         for label, _aname, build in LAYOUTS:
-            if not label.startswith("7z"):
+            if not label.startswith("7z") or (only_layouts(entries) is not None and not only_layouts(entries)(label)):
+                continue
+            if len(entries) > 50 and label not in BIG_SET_LAYOUTS:
                 continue
             data = build(entries)
             try:
@@ -560,8 +611,8 @@ def check_files_info():
                 obs = f"names = {seen_names!r}"
             elif es not in bools or (any(ef) and ef not in bools):
                 obs = f"EmptyStream / EmptyFile vectors = {bools}"
-            elif r._stream.tell() != len(data):
-                obs = f"section ends at {len(data)}, parser stopped at {r._stream.tell()}"
+            elif r._replay_io.tell() != len(data):
+                obs = f"section ends at {len(data)}, parser stopped at {r._replay_io.tell()}"
         except Exception as e:  # noqa
             obs = f"{type(e).__name__}: {e}"
         if obs:
@@ -570,6 +621,20 @@ def check_files_info():
                     "expected": "num_files, names, EmptyStream and EmptyFile vectors of the section are handed to _build_file_list; position after the END marker",
                     "observed": obs}
     return None
+
+
+def check_member_size_limit():
+    """members above the per-member limit (lowered through the public configure_archive_extraction) are skipped, every other
+    member -- in particular the ones stored AFTER an oversized one in the same solid 7z folder -- still comes out as itself"""
+    from sharepoint2text.parsing.extractors import archive_extractor as ae
+    old = ae._config
+    entries = [("small.txt", b"small"), ("big1.txt", b"B" * 3000), ("after.txt", b"after the big one"), ("sub/big2.md", b"# " + b"M" * 5000),
+               ("last.csv", b"a,b\n1,2\n")]
+    try:
+        ae.configure_archive_extraction(max_memory_size=1000)
+        return matrix(None, [entries])
+    finally:
+        ae._config = old
 
 
 def check_7z_large_solid():
@@ -663,7 +728,7 @@ def find(req):
     ob = req.get("obligation", "") or ""
     checks = []
     ALL = [check_read_number, check_bool_vector, check_bool_vector_defined, check_pack_info, check_files_info, check_detect, check_7z_bytes,
-           check_tar_member_read_failure, matrix, check_7z_large_solid]
+           check_tar_member_read_failure, matrix, check_member_size_limit, check_7z_large_solid]
     if "native-scope" in ob:
         checks = ALL
     elif "_read_number" in ob or "_read_uint" in ob or "_read_bytes" in ob:
@@ -677,11 +742,11 @@ def find(req):
     elif "_parse_pack_info" in ob:
         checks = [check_pack_info, check_7z_bytes, lambda: matrix(lambda l: l.startswith("7z"))]
     elif "extractall" in ob or "_decompress_folder" in ob:
-        checks = [lambda: finding("F10-one-folder-per-file"), lambda: matrix(lambda l: l.startswith("7z"))]
+        checks = [lambda: finding("F10-one-folder-per-file"), lambda: matrix(lambda l: l.startswith("7z")), check_member_size_limit]
     elif "empty-file-is-not-a-directory" in ob:
         checks = [lambda: finding("F25-7z-empty-file-taken-for-directory")]
     elif "_build_file_list" in ob or "_extract_files_from_folder" in ob or "_parse_" in ob or "_7z" in ob:
-        checks = [check_7z_bytes, lambda: matrix(lambda l: l.startswith("7z"))]
+        checks = [check_7z_bytes, lambda: matrix(lambda l: l.startswith("7z")), check_member_size_limit]
     elif "outside-F26" in ob:
         # the clause that EXCLUDES the recorded class F26: its own witness does not count
         checks = [check_detect, lambda: matrix(lambda l: l.startswith("tar"))]
@@ -690,7 +755,9 @@ def find(req):
     elif "empty-tar" in ob:
         checks = [lambda: finding("F27-empty-plain-tar-not-recognised")]
     elif "_detect_archive" in ob or "MAGIC" in ob or "read_archive" in ob:
-        checks = [check_detect, lambda: matrix(None, [DOCS[:2]])]
+        # routing: every layout on a small set, then the TAR layouts on every member set (the open mode read_archive builds
+        # decides how a compressed container is read: multi-stream files need more than the padding of a two-member archive)
+        checks = [check_detect, lambda: matrix(None, [DOCS[:2]])] + ([lambda: matrix(lambda l: l.startswith("tar"))] if "read_archive" in ob else [])
     elif "_zip_" in ob:
         checks = [lambda: matrix(lambda l: l.startswith("zip"))]
     elif "_tar_" in ob:
